@@ -440,8 +440,43 @@ def check(ctx):
     if n13 < 4:
         raise AnalysisError('C01.R13 found only %d strftime sites in asn1tools/codecs' % n13)
 
+    # ---- R14: the decoders of the known-multiplier strings rebuild the octets of each character for <bytes>.decode(ENCODING).  How many octets a character has is a matter of
+    #      the encoding (two for BMPString), not of the bits it takes on the wire: a permitted alphabet narrows the field, not the character.  Every decode method of the
+    #      family therefore converts with the same width, the one derived from the unconstrained alphabet.
+    ctx.rule('C01.R14', 'known-multiplier strings: every decode path rebuilds the character octets with the width of the unconstrained alphabet (not the bits of the field)')
+    n14 = 0
+    for rel in (PER, UPER):
+        kc = model.mod(rel).classes.get('KnownMultiplierStringType')
+        if kc is None:
+            raise AnalysisError('%s: KnownMultiplierStringType vanished' % rel)
+        for mn in ('decode', 'decode_unbound'):
+            r_ = kc.find_method(mn)
+            if not r_:
+                continue
+            g_ = r_[1]
+            if g_._cls is not kc and rel == UPER:
+                continue          # inherited from the aligned class: examined there
+            gv = sem.View(g_)
+            for x_ in walk_no_nested(g_):
+                if isinstance(x_, ast.Call) and isinstance(x_.func, ast.Name) and x_.func.id == 'to_byte_array' and len(x_.args) == 2:
+                    n14 += 1
+                    w_ = gv.expr(x_.args[1])
+                    wt = ast.unparse(w_)
+                    field = 'bits_per_character' in wt and 'ALPHABET' not in wt
+                    ctx.instance('C01.R14', '%s to_byte_array(.., %s)' % (Model.qual(g_), wt[:60]), 'VIOLATION' if field else ('width of the alphabet' if 'ALPHABET' in wt else 'undecided'),
+                                 nontrivial='ALPHABET' in wt or field, node=x_, file=rel)
+                    if field:
+                        ctx.violation('C01.R14', rel, x_, Model.qual(g_),
+                                      'the octets of a decoded character are rebuilt with `%s`, the number of bits of the (possibly constrained) field: a BMPString (FROM ("a".."z")) has 8 bit '
+                                      'fields but two octets per character, so the decoded octets are not UTF-16 and the value the encoder accepted cannot be decoded (UnicodeDecodeError)'
+                                      % wt[:60], stmt='character width from the field')
+    if n14 < 3:
+        raise AnalysisError('C01.R14 found only %d character conversions' % n14)
+
 
 MUTANTS = [
+    dict(name='bounded string decode rebuilds characters with the width of the field', file=UPER,
+         old="""            data += to_byte_array(value, orig_bits_per_character)""", new="""            data += to_byte_array(value, self.bits_per_character)""", expect='C01.R14'),
     dict(name='restricted generalized time year through strftime', file='asn1tools/codecs/__init__.py',
          old="""        string = format_year(date) + date.strftime('%m%d%H%M%S')
 
